@@ -4,7 +4,8 @@ run the property's rules on the copy and require the named instance to be report
   python3 -m qv.selftest [PROP ...] [--only <mutant-id>] [--keep]
 
 Mutants live in selftest/<PROP>.json: [{"id", "rule", "file", "search", "replace", "expect" (substring of
-the reported key or message), "mir": bool, "note"}].  A mutant must change exactly one occurrence.
+the reported key or message), "mir": bool, "note", optional "also": [{"file","search","replace"}, ..] for edits at further sites}].
+Every edit must change exactly one occurrence.
 Exit 0 iff every mutant is caught by the expected rule and the behaviour-preserving variants (neutral/edits.diff, a rustfmt
 re-formatting of the whole tree) add no report.
 """
@@ -36,6 +37,18 @@ def run_check(prop, repo, evdir):
 
 
 def apply(repo, m):
+    """apply the edit of m, then the further edits listed under "also" (two-site mutants: every edit must apply)"""
+    err = apply_one(repo, m)
+    if err:
+        return err
+    for extra in m.get("also", []):
+        err = apply_one(repo, extra)
+        if err:
+            return "also: " + err
+    return None
+
+
+def apply_one(repo, m):
     p = os.path.join(repo, "src", m["file"])
     s = open(p).read()
     n = s.count(m["search"])
